@@ -61,6 +61,23 @@ type c05Case struct {
 func u(x uint64) string { return strconv.FormatUint(x, 10) }
 func i(x int64) string  { return strconv.FormatInt(x, 10) }
 
+// c05Global: the same roll on the package-level generator (what a VM without a seed uses: Roll with a nil source), pinned
+// to the given state: result and successor state must be those of a private source in that state
+func c05Global(kind string, d int64, mode int, hi, lo uint64, w *uint64) {
+	g := ds.VerifGlobalRandSource()
+	var b [16]byte
+	binary.BigEndian.PutUint64(b[:8], hi)
+	binary.BigEndian.PutUint64(b[8:], lo)
+	_ = g.UnmarshalBinary(b[:])
+	res := ds.Roll(nil, ds.IntType(d), mode)
+	h2, l2 := srcState(g)
+	c := c05Case{Kind: kind, D: i(d), Mode: mode, Hi: u(hi), Lo: u(lo), Res: i(int64(res)), Hi2: u(h2), Lo2: u(l2)}
+	if w != nil {
+		c.W = u(*w)
+	}
+	emit(c)
+}
+
 func c05Run(kind string, d int64, mode int, hi, lo uint64, w *uint64) {
 	src := mkSrc(hi, lo)
 	res := ds.Roll(src, ds.IntType(d), mode)
@@ -104,6 +121,9 @@ func init() {
 				w := w
 				hi, lo := stateBefore(w)
 				c05Run("eng", d, 0, hi, lo, &w)
+				if d%3 == 0 || d > 1<<40 {
+					c05Global("eng-global", d, 0, hi, lo, &w)
+				}
 			}
 		}
 		// modes and degenerate sizes on random states
@@ -127,6 +147,9 @@ func init() {
 				d = 6
 			}
 			c05Run("rnd", d, 0, r.u64(), r.u64(), nil)
+			if k%4 == 0 {
+				c05Global("rnd-global", d, pick(r, []int{0, 0, 0, -1, 1}), r.u64(), r.u64(), nil)
+			}
 		}
 	}
 
